@@ -1139,6 +1139,27 @@ pub fn run_c18<K: HashKind>(seed: u64, rep: &mut Rep, budget: usize) {
                             rep.fail("C18", &format!("panic:confirm_nonexistence:{}", msg_class(&p)), format!("{what}: {p}"));
                         }
                     }
+                    // an in-scope write whose key equals the terminal leaf's key everywhere below
+                    // the path: if the (verified, hostile) leaf does not lie below its own path
+                    // the spliced sub-trie would hold two keys that differ only above the path
+                    if let Some(leaf) = v.terminal() {
+                        let mut k = leaf.key_path;
+                        for (i, b) in v.path().iter().by_vals().enumerate() {
+                            if b {
+                                k[i / 8] |= 1 << (7 - i % 8);
+                            } else {
+                                k[i / 8] &= !(1 << (7 - i % 8));
+                            }
+                        }
+                        rep.feat("updates_aliasing_the_terminal_leaf", (k != leaf.key_path) as u64);
+                        let ups = vec![PathUpdate {
+                            inner: v.clone(),
+                            ops: vec![(k, Some(rng.key()))],
+                        }];
+                        if let Err(p) = guard(|| verify_update::<K::Nomt>(target_root, &ups)) {
+                            rep.fail("C18", &format!("panic:verify_update:{}", msg_class(&p)), format!("{what} then update of a key aliasing the terminal leaf below the path: {p}"));
+                        }
+                    }
                     // hostile updates through a genuinely verified path
                     for _ in 0..3 {
                         let mut ups = vec![PathUpdate {
